@@ -1,6 +1,7 @@
 /* C01 unit correspondence: calls the library's static stride_flatten() and ncmpio_first_offset()
  * (reached by #include of the scratch tree's ncmpio_filetype.c) on hand-built NC / NC_var objects.
  *   SF <isrec> <xsz> <recsize> <ndims> shape.. start.. count.. stride..   ->  <seglen> <nblocks> disps...
+ *   RC <isrec> <numRecVars> <ndims> shape.. start.. count..                   ->  0|1
  *   FO <isrec> <xsz> <recsize> <begin> <ndims> shape.. start..            ->  <offset>
  */
 #include <stdio.h>
@@ -33,6 +34,12 @@ int main(void) {
             /* dsizes as ncmpio_NC_var_shape64 computes them: products from the right, record dim excluded */
             if (nd>0) { dsizes[nd-1] = (nd-1==0&&isrec)?1:shape[nd-1]; for(int d=nd-2;d>=0;d--) dsizes[d] = dsizes[d+1] * ((d==0&&isrec)?1:shape[d]); }
             MPI_Offset off=-1; ncmpio_first_offset(&nc,&var,start,&off); printf("%lld\n",(long long)off);
+        } else if (!strcmp(tok[0],"RC")) { /* RC <isrec> <numRecVars> <nd> shape.. start.. count.. -> is_request_contiguous */
+            int isrec=atoi(tok[1]), nrv=atoi(tok[2]), nd=atoi(tok[3]); int a=4;
+            for(int d=0;d<nd;d++) shape[d]=atoll(tok[a++]); for(int d=0;d<nd;d++) start[d]=atoll(tok[a++]);
+            for(int d=0;d<nd;d++) count[d]=atoll(tok[a++]);
+            if (isrec) shape[0]=NC_UNLIMITED;
+            printf("%d\n", is_request_contiguous(isrec, nrv, nd, shape, start, count));
         } else printf("bad-op\n");
     }
     return 0;
